@@ -184,23 +184,32 @@ inductive Outcome where
   | fault (what : String)   -- an access outside `m_slot_map` or through a null slot pointer that the C++ does not guard
   deriving Repr
 
+/-! register and bookkeeping updates of the rule context (named so that proofs can project through them) -/
+def Ctx.withSeg (c : Ctx) (seg : Seg) : Ctx := { c with seg := seg }
+def Ctx.setIs (c : Ctx) (v : Option Nat) : Ctx := { c with is := v }
+def Ctx.setMap (c : Ctx) (m : Int) : Ctx := { c with map := m }
+def Ctx.setStatus (c : Ctx) (st : Status) : Ctx := { c with status := st }
+def Ctx.setMaxSize (c : Ctx) (m : Int) : Ctx := { c with maxSize := m }
+def Ctx.setCell (c : Ctx) (k : Nat) (v : Option Nat) : Ctx := { c with smap := c.smap.setIfInBounds k v }
+/-- `if (is == smap.highwater()) smap.highpassed(b);` -/
+def Ctx.markHighpassed (c : Ctx) (b : Bool) : Ctx := if c.is = c.highwater then { c with highpassed := b } else c
+/-- `if (is == smap.highwater()) smap.highwater(v);` (which also clears `highpassed`) -/
+def Ctx.moveHighwater (c : Ctx) (v : Option Nat) : Ctx := if c.is = c.highwater then { c with highwater := v, highpassed := false } else c
+
 /-- `slotat(x)`: `none` with the status set when the offset is outside the map -/
 def slotat (c : Ctx) (x : Int) : Option Nat × Ctx :=
   let i := c.map + x
   if 0 ≤ i ∧ i < (c.size : Int) + 1 then ((c.smap.getD i.toNat none), c)
-  else (none, { c with status := .slot_offset_out_bounds })
+  else (none, c.setStatus .slot_offset_out_bounds)
 
-def die (c : Ctx) : Outcome := .died { c with is := c.seg.last, status := .died_early }
+def die (c : Ctx) : Outcome := .died ((c.setIs c.seg.last).setStatus .died_early)
 
 /-- `next` -/
 def opNext (c : Ctx) : Outcome :=
   if c.map - 1 ≥ (c.size : Int) then die c else
-  let c := match c.is with
-    | some i =>
-      let c := if c.is = c.highwater then { c with highpassed := true } else c
-      { c with is := (c.seg.get i).next }
-    | none => c
-  .cont { c with map := c.map + 1 }
+  match c.is with
+  | some i => .cont ((((c.markHighpassed true).setIs (c.seg.get i).next)).setMap (c.map + 1))
+  | none => .cont (c.setMap (c.map + 1))
 
 /-- `while (iss && iss->isDeleted()) iss = iss->next();` -/
 def skipDeleted (seg : Seg) : Nat → Option Nat → Option Nat
@@ -248,25 +257,29 @@ def Seg.linkNew (seg : Seg) (n : Nat) (iss : Option Nat) : Seg :=
 
 /-- `insert` -/
 def opInsert (c : Ctx) : Outcome :=
-  let c := { c with maxSize := c.maxSize - 1 }
+  let c := c.setMaxSize (c.maxSize - 1)
   if c.maxSize ≤ 0 then die c else
   match c.seg.newSlot c.growthFactor with
   | none => die c
   | some (n, seg) =>
     let iss := skipDeleted seg (seg.slots.size + 1) c.is
-    let seg := seg.linkNew n iss
-    let c := if c.is = c.highwater then { c with highpassed := false } else c
-    .cont { c with seg := seg.addGlyphs 1, is := some n, map := if c.map ≠ 0 then c.map - 1 else c.map }
+    .cont ((((c.markHighpassed false).withSeg ((seg.linkNew n iss).addGlyphs 1)).setIs (some n)).setMap (if c.map ≠ 0 then c.map - 1 else c.map))
+
+/-- `if (p) p->next(v); else seg.first(v);` – the pointer that leads into a slot from the left -/
+def Seg.setNextOf (s : Seg) (p : Option Nat) (v : Option Nat) : Seg :=
+  match p with
+  | some p => s.upd p fun sl => sl.setNext v
+  | none => s.setFirst v
+
+/-- `if (n) n->prev(v); else seg.last(v);` – the pointer that leads into a slot from the right -/
+def Seg.setPrevOf (s : Seg) (n : Option Nat) (v : Option Nat) : Seg :=
+  match n with
+  | some n => s.upd n fun sl => sl.setPrev v
+  | none => s.setLast v
 
 /-- the relinking of `delete_`: the neighbours of slot `i` (or `first`/`last`) bypass it -/
 def Seg.unlink (s : Seg) (i : Nat) : Seg :=
-  let si := s.get i
-  let s := match si.prev with
-    | some p => s.upd p fun sl => sl.setNext (si.next)
-    | none => s.setFirst si.next
-  match si.next with
-  | some n => s.upd n fun sl => sl.setPrev (si.prev)
-  | none => s.setLast si.prev
+  (s.setNextOf (s.get i).prev (s.get i).next).setPrevOf (s.get i).next (s.get i).prev
 
 /-- slot `i` leaves the attachment tree: out of its parent's child list, its own children become bases
 (the code shared by `freeSlot` and `delete_`) -/
@@ -281,10 +294,8 @@ def opDelete (c : Ctx) : Outcome :=
   | some i =>
     let si := c.seg.get i
     if si.deleted then die c else
-    let seg := ((c.seg.upd i fun sl => sl.setDeleted (true)).unlink i).detach i
-    let c := if c.is = c.highwater then { c with highwater := si.next, highpassed := false } else c
-    let is' := match si.prev with | some p => some p | none => c.is
-    .cont { c with seg := seg.addGlyphs (-1), is := is' }
+    let seg := ((c.seg.upd i fun sl => sl.setDeleted true).unlink i).detach i
+    .cont (((c.moveHighwater si.next).withSeg (seg.addGlyphs (-1))).setIs (match si.prev with | some p => some p | none => c.is))
 
 /-- `memcpy(is, ref)` followed by the repairs of the copy's own links and index -/
 def Slot.copyFrom (si sr : Slot) : Slot :=
@@ -297,8 +308,6 @@ def Seg.copySlot (seg : Seg) (i rf : Nat) : Seg :=
   match sr.parent with
   | some p => (child seg p i).2
   | none => seg
-
-def Ctx.withSeg (c : Ctx) (seg : Seg) : Ctx := { c with seg := seg }
 
 /-- `is->markCopied(false); is->markDeleted(false);` -/
 def Seg.unmark (seg : Seg) (i : Nat) : Seg := seg.upd i fun sl => (sl.setCopied false).setDeleted false
@@ -382,9 +391,8 @@ def opAttrSet (c : Ctx) (slat : Nat) (subindex : Nat) (value : Int) : Outcome :=
 def opTempCopy (c : Ctx) : Outcome :=
   match c.seg.newSlot c.growthFactor, c.is with
   | some (n, seg), some i =>
-    let si := seg.get i
-    let seg := seg.upd n fun _ => si.setCopied true
-    if 0 ≤ c.map ∧ c.map.toNat < c.smap.size then .cont { c with seg := seg, smap := c.smap.setIfInBounds c.map.toNat (some n) }
+    if 0 ≤ c.map ∧ c.map.toNat < c.smap.size then
+      .cont ((c.withSeg (seg.upd n fun _ => (seg.get i).setCopied true)).setCell c.map.toNat (some n))
     else .fault "temp_copy: *map outside m_slot_map"
   | _, _ => die c
 
